@@ -190,6 +190,11 @@ def check(case, obs):
         for p, how in case['unknown'].get(str(c), []):
             vals[p] = None if how == 'none' else float('nan')
         mef_values.append(vals)
+    if case['np_seed'] % 2 == 0:
+        # callers also hand over a float array (unknown entries as NaN); it is theirs and must stay as it is
+        mef_values = np.array([[np.nan if v is None else v for v in row] for row in mef_values], dtype=float)
+        obs.label('mef_values:ndarray')
+    mef_snapshot = np.array(mef_values, dtype=float, copy=True) if isinstance(mef_values, np.ndarray) else None
     clustering_channels = [chans[i] for i in case['clustering']]
     nontriv = nch >= 2 or bool(case['unknown']) or any(_piled(case, c) for c in range(nch)) or sorted(case['clustering']) != list(range(nch))
     obs.nontrivial = nontriv
@@ -301,9 +306,12 @@ def check(case, obs):
     # ---- number of channels calibrated at once
     if nch > 1:
         c = case['perm_seed'] % nch
-        outs = run(d, [chans[c]], [mef_values[c]])
+        outs = run(d, [chans[c]], [list(mef_values[c])] if not isinstance(mef_values, np.ndarray) else mef_values[c:c + 1])
         oks = not raised(outs) and _same_curve(outs.fitting['beads_params'][0], out.fitting['beads_params'][c])
         obs.claim('channel_count', oks, lambda: 'calibrating %s alone gives another curve than together with the others' % chans[c])
     # ---- the curves returned first still compute what they computed (later calibrations share nothing with them)
     obs.claim('stable', all(np.array_equal(np.asarray(out.fitting['std_crv'][c](Xd[:, 2 + c])), t_first[c]) for c in range(nch)),
               'standard curves returned by the first calibration changed after later calibrations')
+    if mef_snapshot is not None:
+        obs.claim('input_intact', np.array_equal(mef_snapshot, np.asarray(mef_values, dtype=float), equal_nan=True),
+                  "the caller's array of manufacturer values was modified")
